@@ -22,6 +22,8 @@ ENGINE = "tasks"
 LEVEL = "exploration"
 TECHNIQUE = "deterministic simulation: seeded event streams with raising / re-entrant observers (fault injection at the observer seam) vs fan-out, prefix-rule and ring-buffer reference models"
 QUICK_RUNS = 40000
+TWIN_P = 0.08   # this share of the runs drives two independent instances of the scenario one after the other (detsim.runner._run_scenario)
+USES_DEPTH = True   # thorough tier: history length bound scales with sim.depth (1..3) beyond the quick tier\'s run indices
 BATCH = 150
 RUN_WALL_LIMIT_S = 120   # runs take milliseconds; generous because whole-machine stalls >20 s were seen under load
 COMPONENTS = {"real": ["twisted.logger.LogPublisher", "twisted.logger.Logger.emit/failure", "twisted.logger.LogLevelFilterPredicate",
@@ -60,7 +62,7 @@ def model_level(cfg, default, ns):
 
 def run(sim):
     nobs = sim.draw_int(1, 6, "nobs")
-    nops = sim.draw_int(5, 40, "nops")
+    nops = sim.draw_int(5, 40 * sim.depth, "nops")
     hist_n = sim.draw_choice([3, 1, 2, 5, None, 0], "history_size")
     default_level = sim.draw_choice(["info", "debug", "warn", "error", "critical"], "default_level")
     obs_cfg = []
@@ -191,7 +193,7 @@ def run(sim):
         del created[:]
 
     for _ in range(nops):
-        sim.step(200)
+        sim.step(200 * sim.depth)
         op = sim.draw_weighted([("emit", 8), ("add", 3), ("remove", 2), ("setlevel", 3), ("clear", 1), ("query", 2), ("replay", 1)], "op")
         if op == "emit":
             st["emits"] += 1
